@@ -311,6 +311,8 @@ theorem loop_sound (e : Env) : ∀ (fuel : Nat) (fibers : List Fiber) (bm : Nat)
     · simp at h; obtain ⟨rfl, rfl⟩ := h; exact hg
     · split at h
       · simp at h
+      split at h
+      · simp at h
       · simp at h
       · rename_i st hp
         have hded : Stopped e bm (dedup fibers []) := by
